@@ -180,7 +180,11 @@ pub fn run() {
 	// .slpp
 	let mut archives: Vec<(Arc<Vec<u8>>, String)> = vec![];
 	let slpp_games: Vec<AbsReplay> = if cx.quick() {
-		vec![per_version_replay((3, 16), Fill::A)]
+		// with Gecko codes and a doubled Game End, so that every kind of archive entry is there to be cut
+		let mut g = per_version_replay((3, 16), Fill::A);
+		g.gecko = Gecko::Live { live: 600, nonzero_pad: true };
+		g.ends = 2;
+		vec![g]
 	} else {
 		let mut v = vec![per_version_replay((0, 1), Fill::A), per_version_replay((2, 2), Fill::A), per_version_replay((3, 0), Fill::A), per_version_replay((3, 16), Fill::A)];
 		let mut z = per_version_replay((3, 16), Fill::A);
